@@ -22,9 +22,13 @@ Definition cwait_s (xs : xstate) (o : op) (w ob : N) : Prop :=
 Definition listed_live (b : mstate) : Prop :=
   forall p c, In p (circuits b) -> get_c (snd p) b = Some c -> c_state c <> Some CClosed /\ c_state c <> Some CFailed.
 
+Definition listed_slive (b : mstate) : Prop :=
+  forall p x, In p (streams b) -> get_s (snd p) b = Some x -> s_state x <> Some SClosed /\ s_state x <> Some SFailed.
+
 Record Inv3 (ls : lstate) (xs : xstate) : Prop := {
   i_rel : Rel ls xs;
   i_live : listed_live (base xs);
+  i_slive : listed_slive (base xs);
   i_cnt : forall w, (countN w (holders xs) <= 1)%nat;
   i_used : forall w, In w (holders xs) -> In w (l_used ls);
   (* an unanswered CLOSECIRCUIT whose _closing_deferred is gone: the circuit has left TorState.circuits *)
@@ -37,6 +41,7 @@ Lemma Inv3_init rts : Inv3 ls0 (xinit rts).
 Proof.
   constructor.
   - apply Rel_init.
+  - intros p c [].
   - intros p c [].
   - intros w. cbn. lia.
   - intros w [].
@@ -205,14 +210,16 @@ Proof.
            right; exists wt; split; [reflexivity | rewrite Gc; discriminate] ] ]).
   - (* stream close *)
     destruct (get_s o1 (base xs)) as [x|]; [|discriminate].
-    destruct (tfind (sclosing xs) o1) as [items0|] eqn:F; intros [= <- <-]; cbn [cclosing sclosing cmds].
-    + split; [|split; [|split; [|split]]]; auto.
-      intros ob items H. left. rewrite tfind_tset. destruct (N.eqb_spec o1 ob) as [E|E]; [subst ob|now apply Same].
-      rewrite F in H. injection H as <-. eexists; reflexivity.
-    + split; [|split; [|split; [|split]]]; auto.
-      * intros ob items H. left. rewrite tfind_tset. destruct (N.eqb_spec o1 ob) as [E|E]; [congruence | now apply Same].
-      * intros c0 H. left. apply in_or_app. now left.
-      * intros ob w ok H. apply in_app_or in H as [H|[H|[]]]; [now left | discriminate H].
+    destruct (s_state x) as [[]|];
+      try (intros [= <- <-]; cbn [cclosing sclosing cmds]; repeat split; auto; fail);
+      (destruct (tfind (sclosing xs) o1) as [items0|] eqn:F; intros [= <- <-]; cbn [cclosing sclosing cmds];
+       [ split; [|split; [|split; [|split]]]; auto;
+         intros ob items H; left; rewrite tfind_tset; destruct (N.eqb_spec o1 ob) as [E|E]; [subst ob|now apply Same];
+         rewrite F in H; injection H as <-; eexists; reflexivity
+       | split; [|split; [|split; [|split]]]; auto;
+         [ intros ob items H; left; rewrite tfind_tset; destruct (N.eqb_spec o1 ob) as [E|E]; [congruence | now apply Same]
+         | intros c0 H; left; apply in_or_app; now left
+         | intros ob w ok H; apply in_app_or in H as [H|[H|[]]]; [now left | discriminate H] ] ]).
   - (* acknowledgement *)
     destruct (cmds xs) as [|[ob wt ok|ob wt ok] q] eqn:Ec.
     + intros [= <- <-]. rewrite Ec. repeat split; auto.
@@ -279,7 +286,8 @@ Proof.
     destruct (c_state c) as [[]|]; try (now injection X as <- <-); destruct (tget (OSPending []) (wcs xs) o1); now injection X as <- <-.
   - destruct (get_c o1 (base xs)) as [c|]; [|discriminate].
     destruct (c_state c) as [[]|]; try (now injection X as <- <-); destruct (tfind (cclosing xs) o1); now injection X as <- <-.
-  - destruct (get_s o1 (base xs)) as [x|]; [|discriminate]. destruct (tfind (sclosing xs) o1); now injection X as <- <-.
+  - destruct (get_s o1 (base xs)) as [x|]; [|discriminate].
+    destruct (s_state x) as [[]|]; try (now injection X as <- <-); destruct (tfind (sclosing xs) o1); now injection X as <- <-.
   - destruct (cmds xs) as [|[ob wt ok|ob wt ok] q]; [now injection X as <- <-| |now injection X as <- <-].
     destruct ok; [destruct (tfind (cclosing xs) ob)|]; now injection X as <- <-.
 Qed.
@@ -332,6 +340,35 @@ Proof.
     change id with (fst (id, N.of_nat (length (sheap (base xs))))) at 1. rewrite kdel_app_last by (now apply kfind_None).
     intros Hi. apply in_map_iff in Hi as [q [Eq Hq]]. destruct (wf_slive _ W q Hq) as [x [G _]].
     pose proof (get_s_bound _ _ _ W G). lia.
+Qed.
+
+Lemma listed_slive_step ls xs o ls' xs' es : Rel ls xs -> listed_slive (base xs) ->
+  lstep ls o = Some ls' -> x_op xs o = Some (xs', es) -> listed_slive (base xs').
+Proof.
+  intros R LL L X. pose proof (r_wf _ _ R) as W.
+  destruct o as [e|l|l|o1 l|o1 l|o1 l|o1 l|o1 wt|o1 wt|o1 wt|o1 wt|];
+    try (rewrite (base_same xs _ xs' es X); [exact LL | intros e; discriminate]).
+  pose proof (ev_legal_of_lstep _ _ _ L) as Lg. rewrite <- (r_tv _ _ R) in Lg.
+  destruct e as [id st path kw|id st cid host port kw]; cbn [x_op] in X.
+  - destruct (x_circ_told _ _ _ _ _ _ _ X) as [Eb _].
+    destruct (circ_event_shape (base xs) id st path kw (base xs') W Eb) as [Sh1 [Sh2 _]].
+    intros p x Hp G. rewrite Sh2 in Hp. unfold get_s in G. rewrite Sh1 in G. exact (LL p x Hp G).
+  - destruct (x_stream_told _ _ _ _ _ _ _ _ _ X) as [Eb _].
+    destruct (stream_event_shape (base xs) id st cid host port kw (base xs') W Eb) as [_ [Sh3 [_ [_ Sh6]]]].
+    destruct (stream_event_state (base xs) id st cid host port kw (base xs') W Eb) as [x' [Gx' Sx']].
+    set (o := match kfind fst id (streams (base xs)) with Some p => snd p | None => N.of_nat (length (sheap (base xs))) end) in *.
+    intros p x Hp G. destruct (N.eq_dec (snd p) o) as [E|E].
+    + rewrite E, Gx' in G. injection G as <-. rewrite Sx'.
+      destruct (s_terminal st) eqn:T; [|destruct st; cbn in T; try discriminate T; split; discriminate].
+      exfalso. apply (stream_terminal_gone xs id st cid host port kw (base xs') W (r_cp _ _ R) Lg T Eb).
+      change (xs_obj xs id) with o. rewrite <- E. now apply in_map.
+    + rewrite (Sh6 _ E) in G. apply (LL p x); [|exact G].
+      rewrite Sh3 in Hp. cbv zeta in Hp.
+      assert (Hd1 : In p (if match kfind fst id (streams (base xs)) with Some _ => false | None => true end
+                         then streams (base xs) ++ [(id, o)] else streams (base xs))).
+      { destruct (s_terminal st); [eapply kdel_In; eauto | exact Hp]. }
+      destruct (kfind fst id (streams (base xs))); [exact Hd1|].
+      apply in_app_or in Hd1 as [H|[H|[]]]; [exact H | subst p; cbn in E; congruence].
 Qed.
 
 Lemma held_cc xs ob (w : N) : In w (items_holders (tget [] (cclosing xs) ob)) -> In w (holders xs).
@@ -395,6 +432,7 @@ Proof.
   destruct (lstep_used ls o ls' L) as [Hused Hfresh].
   destruct (hold_step xs o xs' es (l_used ls) X (i_cnt _ _ I) (i_used _ _ I) Hfresh) as [HC HU].
   pose proof (listed_live_step ls xs o ls' xs' es R (i_live _ _ I) L X) as LL'.
+  pose proof (listed_slive_step ls xs o ls' xs' es R (i_slive _ _ I) L X) as SL'.
   destruct (close_tables_step xs o xs' es X) as [T1 [T2 [T3 [T4 T5]]]].
   destruct (nc_mono ls o ls' L) as [Mc Ms].
   assert (NotHeld : forall w r, In (NDone w r) es -> ~ In w (holders xs')).
@@ -405,6 +443,7 @@ Proof.
   - constructor.
     + exact R'.
     + exact LL'.
+    + exact SL'.
     + exact HC.
     + intros w H. rewrite Hused. now apply HU.
     + intros ob w ok H. destruct (T4 ob w ok H) as [Hold|[_ [Hnew _]]]; [|now left].
@@ -423,12 +462,12 @@ Proof.
     intros w r ob Hd Hok [Hreq|[Hit|[ok Hcmd]]].
     + (* answered at once: only when the state is CLOSED *)
       subst o. cbn [x_op] in X. destruct (get_c ob (base xs)) as [c|] eqn:G; [|discriminate].
-      assert (Cl : c_state c = Some CClosed).
-      { destruct (c_state c) as [[]|] eqn:Ec; try reflexivity;
+      assert (Cl : c_state c = Some CClosed \/ c_state c = Some CFailed).
+      { destruct (c_state c) as [[]|] eqn:Ec; auto;
           (destruct (tfind (cclosing xs) ob); injection X as <- <-; exfalso; cbn in Hd; intuition discriminate). }
-      assert (Bs : base xs' = base xs) by (rewrite Cl in X; now injection X as <- <-).
+      assert (Bs : base xs' = base xs) by (destruct Cl as [Cl|Cl]; rewrite Cl in X; now injection X as <- <-).
       unfold gone_c. rewrite Bs. intros Hi. apply in_map_iff in Hi as [p [Ep Hp]].
-      rewrite <- Ep in G. destruct (i_live _ _ I p c Hp G) as [A _]. congruence.
+      rewrite <- Ep in G. destruct (i_live _ _ I p c Hp G) as [A B]. destruct Cl; congruence.
     + destruct (items_nonempty_found _ _ _ Hit) as [items F].
       destruct (T1 ob items F) as [[extra F']|Ht]; [|exact (term_circ_gone ls xs o ls' xs' es ob R LL' L X Ht)].
       exfalso. apply (NotHeld w r Hd). apply (held_cc xs' ob). rewrite (tget_of_tfind [] _ _ _ F'), items_holders_app.
@@ -444,8 +483,13 @@ Proof.
       * injection X as <- <-. destruct Hd as [Hd|[]]. injection Hd as <-. discriminate Hok.
   - (* stream close waits *)
     intros w r ob Hd Hok [Hreq|Hit].
-    + subst o. cbn [x_op] in X. destruct (get_s ob (base xs)); [|discriminate].
-      exfalso. destruct (tfind (sclosing xs) ob); injection X as <- <-; cbn in Hd; intuition discriminate.
+    + subst o. cbn [x_op] in X. destruct (get_s ob (base xs)) as [x|] eqn:G; [|discriminate].
+      assert (Cl : s_state x = Some SClosed \/ s_state x = Some SFailed).
+      { destruct (s_state x) as [[]|] eqn:Ec; auto;
+          (destruct (tfind (sclosing xs) ob); injection X as <- <-; exfalso; cbn in Hd; intuition discriminate). }
+      assert (Bs : base xs' = base xs) by (destruct Cl as [Cl|Cl]; rewrite Cl in X; now injection X as <- <-).
+      unfold gone_s. rewrite Bs. intros Hi. apply in_map_iff in Hi as [p [Ep Hp]].
+      rewrite <- Ep in G. destruct (i_slive _ _ I p x Hp G) as [A B]. destruct Cl; congruence.
     + destruct (items_nonempty_found _ _ _ Hit) as [items F].
       destruct (T2 ob items F) as [[extra F']|Ht].
       * exfalso. apply (NotHeld w r Hd). apply (held_sc xs' ob). rewrite (tget_of_tfind [] _ _ _ F'), items_holders_app.
